@@ -18,4 +18,10 @@ def _reg(prop, tier, seed, replay):
         seqfamily.Scratch = orig
 
 
+def _roots(prop, tier, seed, replay):
+    import fam_roots
+    return seqfamily.check(prop, fam_roots.family_for(prop), tier, seed, replay)
+
+
 CHECKS = {p: _reg for p in ("C01", "C03", "C05", "C06", "C10")}
+CHECKS.update({p: _roots for p in ("C08", "C09")})
